@@ -11,10 +11,10 @@ ST = j1939.ControllerApplication.State
 ENTRIES = ('send_message', 'send_pgn', 'send_pgn_long', 'send_request', 'dm22', 'dm11', 'dm14_read', 'dm14_write', 'dm1_timer')
 
 
-def h_send(ex, state, entry, addr=128, dll='j1939-21'):
+def h_send(ex, state, entry, addr=128, dll='j1939-21', sym_contender=False):
     w = W.World(ex, mode='interleave')
     n = w.add_node('S', dll=dll)
-    ca, held = make_ca(w, n, state, addr, ident=77)
+    ca, held = make_ca(w, n, state, addr, ident=77, ex=ex if sym_contender else None)
     operational = held is not None
     base = len(w.log)
     prio = ex.fresh_int('prio', 0, 7)
@@ -89,6 +89,10 @@ def jobs(tier):
         addr = 10 if state == 'normal_immediate' else 128
         for entry in ENTRIES:
             out.append(Job('C13', 'c13:h_send', {'state': state, 'entry': entry, 'addr': addr}, W=40, wall=120, validate=1))
+    # the contender that takes the address away has a symbolic NAME (any value lower than ours)
+    for state in ('lost_waiting', 'moved', 'moved_lost_waiting', 'moved_twice', 'cannot_claim'):
+        for entry in ('send_pgn', 'send_message', 'send_request'):
+            out.append(Job('C13', 'c13:h_send', {'state': state, 'entry': entry, 'addr': 128, 'sym_contender': True}, W=96, wall=300, validate=1))
     if True:
         for state in CA_STATES:
             for entry in ('send_pgn', 'send_pgn_long', 'send_request'):
@@ -100,7 +104,7 @@ def meta(tier):
     return {
         'bounds': ['claim histories ' + str(CA_STATES) + ' reached by the real claim procedure (contending claims injected with a lower NAME)',
                    'entry points ' + str(ENTRIES) + '; PGN (data page, PDU format, PDU specific), priority, destination, payload, SPN/FMI, pointer symbolic',
-                   'preferred address 128 (veto range) / 10 (immediate range)'],
+                   'preferred address 128 (veto range) / 10 (immediate range)', 'NAME of the contender that takes the address away: symbolic, any valid 64-bit NAME below ours (extra jobs)'],
         'outside': ['other preferred addresses', 'J1939-22: only send_pgn / send_request'],
         'assumptions': ['the cyclic DM1 sender runs from the timer: only "no DM1 frame while not operational" is claimed for it (that the exception then ends the job thread is recorded as an observation)'],
     }
